@@ -172,7 +172,13 @@ def rand_event_spec(rng, depth=3, max_dur=30 * DAY_US) -> dict:
         ts = floor_ms(max(0, 2**k - rng.randrange(0, dur + 1)))
     if ts + dur >= MAX_US + 31 * DAY_US:
         dur = 0
-    return dict(ts=ts, off=rand_offset(rng), dur=dur, data=rand_data(rng, depth))
+    off = rand_offset(rng)
+    if rng.random() < 0.04:
+        # the first hours of 1970 as a clock EAST of Greenwich shows them: a date in 1970 whose UTC instant is negative
+        off = rng.choice([60, 120, 330, 345, 540, 765, 840])
+        ts = floor_ms(-off * 60 * 10**6 + rng.choice([0, 1000, 60 * 10**6, rng.randrange(0, off * 60 * 10**6 + 3600 * 10**6)]))
+        dur = rng.choice([0, 1, 999, 10**6, 60 * 10**6, rng.randrange(0, 2 * off * 60 * 10**6 + 1)])
+    return dict(ts=ts, off=off, dur=dur, data=rand_data(rng, depth))
 
 
 def materialise(x):
